@@ -309,7 +309,11 @@ def process_template(tmpl_text, repo=None):
                 anchor = sm.group(1)
                 idxs = [mm.start() for mm in re.finditer(re.escape(anchor), t1)]
                 if len(idxs) != 1:
-                    raise ExtractError(f"anchor `{anchor[:60]}` occurs {len(idxs)}x in {kv['fn']} (source drifted)")
+                    # A ghost hint whose anchor statement is gone is skipped; the unit is then
+                    # verified without it.  If that still verifies the hint was not needed; if
+                    # it fails the verdict is `undecided` (lost anchor), never an alarm.
+                    entry.setdefault("lost_anchors", []).append(anchor)
+                    continue
                 if d["kind"] == "after":
                     e = t1.find("\n", idxs[0])
                     e = len(t1) if e < 0 else e
@@ -342,6 +346,7 @@ def run_one(unit, scratch, log_dir, prop):
         res["reason"] = f"extraction: {e}"
         return res
     res["extraction"] = elog
+    lost = [a for e in elog for a in e.get("lost_anchors", [])]
     os.makedirs(scratch, exist_ok=True)
     path = os.path.join(scratch, unit["name"] + ".rs")
     open(path, "w").write(text)
@@ -393,6 +398,10 @@ def run_one(unit, scratch, log_dir, prop):
     if "Resource limit (rlimit) exceeded" in out or "rlimit" in out and "exceeded" in out:
         res["verdict"] = "undecided"
         res["reason"] = "solver resource limit exceeded"
+        return res
+    if errors > 0 and lost:
+        res["verdict"] = "undecided"
+        res["reason"] = "ghost-hint anchor(s) no longer present in the source (" + "; ".join(a[:50] for a in lost) + ") and the proof does not go through without them"
         return res
     if errors > 0:
         msgs = re.findall(r'^error: (.*)\n\s+--> [^\n]*:(\d+):\d+', out, flags=re.M)
